@@ -21,7 +21,8 @@ EXPLANATION = (
     "adict['catalog']; to_dataframe carries catalog_id and from_dataframe selects exactly the dtype columns. NOT "
     "decided: repr/float round-trips of doubles, csv quoting of awkward ids, catalog_id typing through pandas/JSON.")
 CLAUSES = {'D1': 'three-way schema and dialect', 'D2': 'time text shapes', 'D3': 'bound names on the empty path', 'D4': 'exact time steps',
-           'D5': 'region dictionary', 'D6': 'guarded element access', 'D7': 'dict / dataframe forms'}
+           'D5': 'region dictionary', 'D6': 'guarded element access', 'D7': 'dict / dataframe forms',
+           'D8': 'catalog id of an empty catalog'}
 TRUSTED = ['CPython ast', 'csv module dialect semantics', 'str(datetime) = YYYY-MM-DD HH:MM:SS[.ffffff] for naive datetimes']
 A = 'csep.core.catalogs.AbstractBaseCatalog.'
 ROOTS = [A + 'write_ascii', A + 'to_dict', A + 'from_dict', A + 'to_dataframe', A + 'from_dataframe', A + 'write_json', A + 'load_json',
@@ -225,6 +226,76 @@ def rule_empty(ck):
     ck.extra['first_element_accesses'] = n_acc
 
 
+def _exc_names(P, f, node):
+    if node is None:
+        return ['*']
+    return [P.canon(f, t) or u(t) for t in (node.elts if isinstance(node, ast.Tuple) else [node])]
+
+
+_BUILTIN_EXC_PARENTS = {'builtins.IndexError': ['builtins.LookupError', 'builtins.Exception'], 'builtins.KeyError': ['builtins.LookupError', 'builtins.Exception'],
+                        'builtins.AttributeError': ['builtins.Exception'], 'builtins.ValueError': ['builtins.Exception'],
+                        'builtins.TypeError': ['builtins.Exception'], 'builtins.RuntimeError': ['builtins.Exception']}
+
+
+def _exc_caught(P, raised, handlers):
+    if '*' in handlers or 'builtins.Exception' in handlers or 'builtins.BaseException' in handlers:
+        return True
+    if raised in handlers:
+        return True
+    c = P.classes.get(raised)
+    if c is not None:
+        return any(m.qualname in handlers for m in c.mro()) or any(b in handlers for m in c.mro() for b in m.base_names)
+    return any(p_ in handlers for p_ in _BUILTIN_EXC_PARENTS.get(raised, []))
+
+
+def rule_optional_magnitudes(ck):
+    """a catalog whose region has no magnitude edges (a purely spatial region) still converts to a DataFrame: the optional
+    magnitude binning must be skipped, i.e. whatever get_mag_idx raises for such a region is what to_dataframe handles"""
+    P = ck.prog
+    ck.clause('D6')
+    d = P.func(A + 'to_dataframe')
+    g = P.func(A + 'get_mag_idx')
+    calls = [c for c in all_nodes(d) if isinstance(c, ast.Call) and isinstance(c.func, ast.Attribute) and c.func.attr == 'get_mag_idx']
+    if not calls:
+        return
+    o = ck.ob('C14-D6.optional', d, 'get_mag_idx failures for a region without magnitude edges are handled', calls[0])
+    handlers = []
+    for p in parents(calls[0]):
+        if isinstance(p, ast.Try) and any(calls[0] is x for st in p.body for x in ast.walk(st)):
+            for h in p.handlers:
+                handlers += _exc_names(P, d, h.type)
+            break
+    # what leaves get_mag_idx when region.magnitudes is missing or None
+    raised = []
+    for r in [n for n in all_nodes(g) if isinstance(n, ast.Raise) and n.exc is not None]:
+        e = r.exc.func if isinstance(r.exc, ast.Call) else r.exc
+        raised.append(P.canon(g, e) or u(e))
+    # region.magnitudes may be None (CartesianGrid2D(..., magnitudes=None)): it must be tested before it is handed to bin1d_vec
+    kernel = calls_in(P, g, 'csep.utils.calc.bin1d_vec')
+    none_guard = False
+    if kernel:
+        barg = kw(kernel[0], 'bins', 1)
+        exg = Expander(P, g)
+        kn = g.cfg.stmt_node_containing(kernel[0])
+        for n in all_nodes(g):
+            if isinstance(n, ast.If) and isinstance(n.test, ast.Compare) and len(n.test.ops) == 1 and isinstance(n.test.ops[0], (ast.Is, ast.Eq)) \
+                    and const_value(n.test.comparators[0]) is None and any(isinstance(x, ast.Raise) for x in n.body):
+                same = u(n.test.left) == u(barg) or u(exg.expand(n.test.left)) == u(exg.expand(barg))
+                tn = g.cfg.node_of(n)
+                if same and tn is not None and kn is not None and g.cfg.dominates(tn, kn):
+                    none_guard = True
+    probs = []
+    if kernel and not none_guard:
+        probs.append('region.magnitudes is None for a purely spatial region and reaches bin1d_vec untested (IndexError on bins[0]), which '
+                     'the handler %s does not cover' % handlers if not _exc_caught(P, 'builtins.IndexError', handlers) else None)
+    for r in raised:
+        if not _exc_caught(P, r, handlers):
+            probs.append('get_mag_idx raises %s, but to_dataframe only handles %s: the optional magnitude column aborts the whole conversion'
+                         % (r.split('.')[-1], [h.split('.')[-1] for h in handlers]))
+    probs = [p_ for p_ in probs if p_]
+    (o.fail('; '.join(probs)) if probs else o.ok('handled: %s' % [h.split('.')[-1] for h in handlers]))
+
+
 def rule_forms(ck):
     P = ck.prog
     ck.clause('D7')
@@ -283,4 +354,32 @@ def rule_forms(ck):
     (o.ok() if 'event_list, catalog_id = loader(filename, return_catalog_id=True)' in txt and 'catalog_id=catalog_id' in txt else o.fail('the catalog id read from the file is not handed to the catalog'))
 
 
-RULES = [rule_schema, rule_time_text, rule_exact_time, rule_region, rule_empty, rule_forms]
+def rule_empty_id(ck):
+    """the catalog id is stored per event row (ASCII) / as a column (DataFrame): with zero events it needs a carrier of its own"""
+    P = ck.prog
+    ck.clause('D8')
+    f = P.func(A + 'write_ascii')
+    o = ck.ob('C14-D8.ascii', f, 'an empty catalog still writes its catalog id', f.node)
+    ok = False
+    early = []
+    for n in all_nodes(f):
+        if isinstance(n, ast.If) and 'event_count' in u(n.test) and '== 0' in u(n.test):
+            early.append(n)
+            for c in ast.walk(n):
+                if isinstance(c, ast.Call) and isinstance(c.func, ast.Attribute) and c.func.attr == 'writerow' and 'catalog_id' in u(c):
+                    ok = True
+    (o.ok('placeholder row with the id') if ok else
+     o.fail('with zero events %s and no row carries catalog_id: the id of an empty catalog is not in the file and the catalog loads back with '
+            'catalog_id None' % ('write_ascii returns after the header (`%s`)' % u(early[0].test) if early else 'the row loop writes nothing')))
+    d = P.func(A + 'to_dataframe')
+    g = P.func(A + 'from_dataframe')
+    o = ck.ob('C14-D8.frame', d, 'an empty frame still carries the catalog id', d.node)
+    carrier = any(isinstance(n, ast.Subscript) and isinstance(n.ctx, ast.Store) and isinstance(n.value, ast.Attribute) and n.value.attr == 'attrs'
+                  for n in all_nodes(d))
+    reads = any(isinstance(n, ast.Attribute) and n.attr == 'attrs' for n in all_nodes(g))
+    (o.ok('DataFrame.attrs') if carrier and reads else
+     o.fail('the id travels only as the column df[\'catalog_id\'], which has no rows for an empty catalog; from_dataframe then finds '
+            'nothing (`iloc[0]` -> IndexError -> None)'))
+
+
+RULES = [rule_schema, rule_time_text, rule_exact_time, rule_region, rule_empty, rule_optional_magnitudes, rule_forms, rule_empty_id]
